@@ -472,7 +472,9 @@ class ScriptPlan:
             return False
 
 
-def run_scriptplan(tjp_file: str, output_dir: Optional[str] = None) -> tuple[bool, Optional[str]]:
+def run_scriptplan(
+    tjp_file: str, output_dir: Optional[str] = None, report_ids: Optional[list[str]] = None
+) -> tuple[bool, Optional[str]]:
     """
     Run ScriptPlan report generation on a .tjp file.
 
@@ -481,6 +483,7 @@ def run_scriptplan(tjp_file: str, output_dir: Optional[str] = None) -> tuple[boo
     Args:
         tjp_file: Path to the .tjp file
         output_dir: Optional output directory for reports (default: current directory)
+        report_ids: Generate only the reports with these IDs (default: all reports of the file)
 
     Returns:
         Tuple of (success, error_message)
@@ -498,6 +501,8 @@ def run_scriptplan(tjp_file: str, output_dir: Optional[str] = None) -> tuple[boo
             args_list = [tjp_file]
             if output_dir:
                 args_list.extend(["--output-dir", output_dir])
+            for report_id in report_ids or []:
+                args_list.extend(["--report", report_id])
             args = parser.parse_args(args_list)
 
             # Suppress logging for programmatic use
